@@ -461,7 +461,11 @@ class TransactionManager(Elaboratable):
         self.transactions = DependencyContext.get().get_dependency(TransactionsKey())
         self.methods = DependencyContext.get().get_dependency(DefinedMethodsKey())
 
-        for elem in chain(self.transactions, self.methods):
+        # Relations can also be declared on methods defined with `provide`. The key is not read with
+        # `get_dependency`, because `_simultaneous` still adds provided methods to it.
+        provided_methods = DependencyContext.get().dependencies.get(ProvidedMethodsKey(), [])
+
+        for elem in chain(self.transactions, self.methods, provided_methods):
             for relation in elem.relations:
                 elem._body.relations.append(RelationBase(**{**dataclass_asdict(relation), "end": relation.end._body}))
             for elem2 in elem.simultaneous_list:
